@@ -7,6 +7,7 @@ Tie D: (a) `Femio.Fistr.writeMsh` must render, line by line, the text `FistrWrit
 Oracle (real code only): write -> read back -> id-keyed maps; FrontISTR-convention orientation of the
 written file through an independent tokenizer; G1-G4 variants read back identically.
 """
+import decimal
 import shutil
 from fractions import Fraction as F
 
@@ -25,7 +26,8 @@ THEOREMS = ['C01_codes_inverse', 'C01_prism_perm_involutive', 'C01_orientation',
             'C01_format_insensitive_whitespace_partial', 'C01_format_insensitive_bang_fixed',
             'C01_bang_counterexample_upstream', 'C01_split_egroup_counterexample_upstream',
             'C01_roundtrip', 'C01_exMesh_wf', 'C01_roundtrip_statement', 'C01_format_insensitive_whitespace',
-            'C01_format_insensitive_split_whole', 'C01_format_insensitive', 'C01_roundtrip_any_format']
+            'C01_format_insensitive_split_whole', 'C01_format_insensitive', 'C01_roundtrip_any_format',
+            'C01_write_keeps_object', 'C01_history_roundtrip', 'C01_append_counterexample']
 PARTIAL = [
     'C01_roundtrip / C01_roundtrip_statement (whole file, readMsh (writeMsh m) = canon m) are over the model of '
     'write_msh / _read_msh + remove_useless_nodes and its well-formed inputs Femio.C01.WF (>= 1 node and element block, '
@@ -41,6 +43,11 @@ PARTIAL = [
     'tet decompositions differ); the geometry-independent statement is the face-cycle theorem C01_orientation',
     'decimal <-> binary rounding of %.12E / float() is runtime (trusted: correctly rounded); arbitrary doubles are '
     'covered by the oracle to 13 digits only',
+    'C01_history_roundtrip / C01_write_keeps_object (Model/FistrHist.lean) abstract every public modification as "the '
+    'object\'s state becomes m\'": that femio\'s modifiers leave the state their caller intended is the subject of C08, not '
+    'proved here; the tie of the history model to the code is the stream `history` (written text = model text of the '
+    'state read from the live object just before the write; object bit-identical after the write; an existing file '
+    'replaced, never appended to - C01_append_counterexample is the kernel-evaluated witness of the appending writer)',
 ]
 RULE = ('seeded generator: node ids distinct positive (dense / sparse / 10^6 / 2*10^9 / prefix-permutation families) in '
         'ascending, descending or shuffled storage order; 1-3 element types out of line, tri, quad, tet, tet2, prism, '
@@ -51,7 +58,24 @@ RULE = ('seeded generator: node ids distinct positive (dense / sparse / 10^6 / 2
         '+-300, signed zeros) or arbitrary doubles; each case additionally in G1 blank / G2 # comment / G3 whitespace / '
         'G4 split-block variants. Stream same-object-twice: the same generator (every second case with prisms), ONE '
         'FEMData object written 2-3 times (another directory each time, or one directory with overwrite=True), every '
-        'written file set read back and compared, the object\'s own mesh compared with its state before each write. distinct = distinct (mesh, extras) after canonical JSON; non-trivial = at least one '
+        'written file set read back and compared, the object\'s own user data (node ids, coordinates, elements, element / node '
+        'groups, sections, materials, nodal and elemental data, bit-exact) compared with its state before each write, the '
+        'texts of the writes compared with each other; in 40 % of the cases the directory already holds an export of '
+        'ANOTHER generated mesh plus files of an earlier analysis and the write runs with overwrite=True. Input dimensions '
+        'added in round 3: id style `ranges` (two or three dense ranges separated by gaps of about the count) for node and '
+        'element ids; element ids of the types interleaving (counted); families of related group / material names '
+        '(PART1 / PART10 / PART11, SKIN / SKIN_TOP, ART1 inside PART1, case variants, names around ALL such as ALL1 / WALL, '
+        'femio\'s own E1 / M1), the section preferably on a group whose name is contained in another name; exactly-one-record '
+        'blocks (one element per type, no spare node; one-member groups); 8 % of the cases also read through '
+        'read_directory and with read_mesh_only=True. Stream history: ONE live object - constructed, or constructed and '
+        'written once, or obtained by reading written files - modified by 1-4 public operations drawn per part of the '
+        'mesh (coordinates / connectivity / temperature / material values edited in place through the arrays .data returns, '
+        'data setters, update_data, loc / iloc write-through, update(allow_overwrite=True), overwrite, groups edited in '
+        'place / replaced / added / deleted, section moved to another group), then written to a fresh directory, back to '
+        'the directory it was written to / read from (overwrite=True) or over an export of another mesh (overwrite=True) '
+        'and read back; expectation = the object\'s public state just before the write (snapshot_case), which is also '
+        'given to the model (text identity, canon) and to an independently built fresh object (text identity). '
+        'distinct = distinct (mesh, extras) after canonical JSON; non-trivial = at least one '
         'element and ids not 1..n ascending or more than one type or extras present')
 ASSUMPTIONS = [
     'ids < 2^53 (the reader converts ids through float64)',
@@ -60,6 +84,18 @@ ASSUMPTIONS = [
     'initial temperature is a full nodal field stored in node order (femio nodal_data layout)',
     'element groups are non-empty (an empty !EGROUP block cannot be represented in the format); empty groups run in '
     'the labelled stream `outside:empty-group`',
+    'stream history: "the mesh" of a live object is what its public attributes show just before the write, read through '
+    '.ids / .data of nodes, of every element block (items()), of nodal_data[INITIAL_TEMPERATURE], materials, sections and '
+    'through the element_groups dict; operations are drawn so that the state stays inside the quantifier (update() sorts '
+    'by id and is applied to nodes / temperature only while the temperature stays a field in node order); a state that '
+    'nevertheless leaves it is counted (`history: outside:...`), an exception raised by a modifier (e.g. numpy refusing '
+    'to write into a read-only array pandas returned) is counted (`history: modifier-raises:...`) and the state reached '
+    'is what counts - neither is reported',
+    'a difference between the texts two writes produce for the same public state (second write, fresh object) is a '
+    'broken tie (ctx.disagree), not by itself a violation; dict insertion orders and settings are not part of the mesh '
+    'the writer must leave untouched',
+    'per-element materials (elemental_data materials, writer branch material_overwritten: one E<id> group, section and '
+    'M<id> material per element, the user\'s groups not written) are outside "one-material sections" and not generated',
 ]
 TRUSTED = [
     'C01: FrontISTR / HEC-MW node-ordering convention (outward face cycles of 341/351/361, signed-volume formulas) is a '
@@ -98,31 +134,76 @@ def rand_num(rnd, decimal):
 
 # ------------------------------------------------------------------ generator
 
+NAME_BASES = ['PART', 'SKIN', 'E', 'M', 'G', 'Body', 'ALL', 'EGRP', 'grp_', 'W']
+NAME_TAILS = ['', '1', '10', '11', '12', '2', '21', '100', '_1', '_TOP', '_TOP2', 'S', '0', '01', '_', 'x']
+
+
+def name_family(rnd, k):
+    """k distinct \\w+ names (never ALL) that are prefixes / suffixes / substrings / case variants of each other: numbered
+    parts (PART1, PART10, PART11, PART2), a name and its extensions (SKIN, SKIN_TOP, SKIN_TOP2), names containing
+    another one in the middle (ART1 in PART10), femio's own per-element names (E1, E10, M1), names around ALL (ALL1,
+    WALL, ALL_) - the dimension that a lookup by substring / startswith / case-folded match gets wrong"""
+    base = rnd.choice(NAME_BASES)
+    pool = [base + t for t in NAME_TAILS]
+    pool += [base[1:] + t for t in NAME_TAILS[:4] if len(base) > 1]            # ART1: inside PART1 and PART10
+    pool += [rnd.choice('WXa_') + base + t for t in NAME_TAILS[:3]]            # WALL, XPART1
+    pool += [base.lower() + t for t in NAME_TAILS[:3]] + [base.capitalize() + t for t in NAME_TAILS[:3]]
+    pool = sorted({n for n in pool if n and n.upper() != 'ALL' and n.lower() not in ('nan', 'na', 'null', 'none', 'inf')})
+    out = rnd.sample(pool, min(k, len(pool)))
+    while len(out) < k:
+        out.append(X.rand_name(rnd, out))
+    return out
+
+
+def ids_ranges(rnd, n):
+    """'sparse but small' ids: two or three dense ranges separated by gaps of about n (max id stays below ~4 n, so a
+    table sized from the count, an offset `id - min`, or a sum / difference of two ids collides where ids 1..n and the
+    widely scattered `sparse` style do not)"""
+    k = min(n, rnd.choice([2, 2, 3]))
+    cuts = sorted(rnd.sample(range(1, n), k - 1)) if n > 1 and k > 1 else []
+    sizes = [b - a for a, b in zip([0] + cuts, cuts + [n])]
+    ids, start = [], rnd.choice([1, 1, 2, n, n + 1])
+    for sz in sizes:
+        ids += list(range(start, start + sz))
+        start += sz + rnd.choice([n - 1, n, n + 1, max(1, n // 2), 2 * n])
+    return ids
+
+
 def gen_extras(rnd, case):
     eids = [e for b in case['blocks'].values() for e, _ in b]
     names = []
     groups = []
-    style = rnd.choice(['none', 'none', 'some', 'some', 'some', 'singletons'])
+    style = rnd.choice(['none', 'none', 'some', 'some', 'some', 'singletons', 'family', 'family'])
+    family = style == 'family' or (style == 'singletons' and rnd.random() < .4)
+    fam = name_family(rnd, len(eids) + 6) if family else None
+
+    def new_name():
+        nm = fam.pop() if fam else X.rand_name(rnd, names)
+        names.append(nm)
+        return nm
     if style == 'some':
         for _ in range(rnd.randint(1, 3)):
-            nm = X.rand_name(rnd, names)
-            names.append(nm)
-            groups.append([nm, rnd.sample(eids, rnd.randint(1, len(eids)))])
+            groups.append([new_name(), rnd.sample(eids, rnd.randint(1, len(eids)))])
+    elif style == 'family':      # 2-5 groups with related names, small (often one-member) and overlapping member lists
+        for _ in range(rnd.randint(2, 5)):
+            groups.append([new_name(), rnd.sample(eids, rnd.choice([1, 1, rnd.randint(1, len(eids))]))])
     elif style == 'singletons':
         order = list(eids)
         rnd.shuffle(order)
         for e in order:
-            nm = X.rand_name(rnd, names)
-            names.append(nm)
-            groups.append([nm, [e]])
-    case['group_style'] = style
+            groups.append([new_name(), [e]])
+    case['group_style'] = style + ('(related names)' if family and style != 'family' else '')
     case['groups'] = groups
     case['has_all'] = rnd.random() < .6
     case['sec'] = None
-    if rnd.random() < .5:
+    if rnd.random() < (.8 if family else .5):
         shell = set(case['blocks']) <= SHELL and rnd.random() < .7
         egrp = rnd.choice(names + ['ALL']) if names else 'ALL'
-        case['sec'] = {'shell': shell, 'egrp': egrp, 'mat': X.rand_name(rnd),
+        if family and names and rnd.random() < .7:       # the section on a group whose name is inside another name
+            inside = [a for a in names if any(a != b and a in b for b in names)]
+            egrp = rnd.choice(inside or names)
+        mat = rnd.choice(names + fam[:3]) if family and rnd.random() < .5 else X.rand_name(rnd)
+        case['sec'] = {'shell': shell, 'egrp': egrp, 'mat': mat,
                        'young': list(X.rand_sci(rnd, 8, 'unit', allow_zero=False)[1:]),
                        'poisson': list(X.rand_sci(rnd, 8, 'unit', allow_zero=False)[1:])}
     case['temp'] = None
@@ -131,19 +212,29 @@ def gen_extras(rnd, case):
     return case
 
 
-def gen_comb(rnd):
+def gen_comb(rnd, round3=False):
+    """combinatorial mesh.  round3=True adds the input dimensions of round 3 (id style `ranges`, exactly-one-record
+    blocks); the default consumes the PRNG exactly as before, so that the checks that borrow this generator as a carrier
+    mesh (C03) see an unchanged stream"""
     decimal = rnd.random() < .75
     types = rnd.sample(TYPES, rnd.choice([1, 1, 2, 2, 3]))
     need = max(ARITY[t] for t in types)
     n_unref = rnd.choice([0, 0, 1, 2])
-    n_nodes = rnd.randint(need, need + 8) + n_unref
-    ids, id_style = G.random_ids(rnd, n_nodes)
+    tiny = round3 and rnd.random() < .12          # exactly-one-record blocks: one element per type, no spare node
+    n_nodes = (need if tiny else rnd.randint(need, need + 8)) + n_unref
+    if round3 and rnd.random() < .15:
+        ids, id_style = ids_ranges(rnd, n_nodes), 'ranges'
+    else:
+        ids, id_style = G.random_ids(rnd, n_nodes)
     rnd.shuffle(ids)
     usable = ids[:n_nodes - n_unref]
     keys, order = G.order_ids(rnd, list(range(n_nodes)), dict(enumerate(ids)))
     nodes = [[ids[k], [rand_num(rnd, decimal) for _ in range(3)]] for k in keys]
-    n_el = rnd.randint(len(types), 9)
-    eids, _ = G.random_ids(rnd, n_el, rnd.choice(['dense', 'sparse', 'large', 'prefix']))
+    n_el = len(types) if tiny else rnd.randint(len(types), 9)
+    if round3 and rnd.random() < .15:
+        eids = ids_ranges(rnd, n_el)
+    else:
+        eids, _ = G.random_ids(rnd, n_el, rnd.choice(['dense', 'sparse', 'large', 'prefix']))
     rnd.shuffle(eids)
     blocks = {}
     for k, e in enumerate(eids):
@@ -173,8 +264,14 @@ def gen_geom(rnd):
 
 
 def gen_case(rnd):
-    case = gen_geom(rnd) if rnd.random() < .3 else gen_comb(rnd)
+    case = gen_geom(rnd) if rnd.random() < .3 else gen_comb(rnd, round3=True)
     return gen_extras(rnd, case)
+
+
+def mat_float(x):
+    """material value of a case: [mant, exp] (9-digit decimal, what the generator draws) or ['h', hex] (snapshot of a
+    live object whose value is not such a decimal)"""
+    return float.fromhex(x[1]) if x[0] == 'h' else X.sci_float((False, *x), 8)
 
 
 def build_fem(case):
@@ -196,8 +293,8 @@ def build_fem(case):
             names=['TYPE', 'EGRP'], ids=[s['mat']],
             list_arrays=[np.array(['SHELL' if s['shell'] else 'SOLID']), np.array([s['egrp']])]))
         X.quiet(fd.materials.update_data, [s['mat']], {
-            'Young_modulus': np.array([[X.sci_float((False, *s['young']), 8)]]),
-            'Poisson_ratio': np.array([[X.sci_float((False, *s['poisson']), 8)]])})
+            'Young_modulus': np.array([[mat_float(s['young'])]]),
+            'Poisson_ratio': np.array([[mat_float(s['poisson'])]])})
     if case['temp'] is not None:
         X.quiet(fd.nodal_data.update_data, np.array([i for i, _ in case['temp']], dtype=np.int64),
                 {'INITIAL_TEMPERATURE': np.array([[num_float(v)] for _, v in case['temp']], dtype=float)})
@@ -403,8 +500,7 @@ def expected_of(case):
     exp['egroups']['ALL'] = sorted(exp['elems'])
     s = case['sec']
     exp['sections'] = {} if s is None else {s['mat']: ['SHELL' if s['shell'] else 'SOLID', s['egrp']]}
-    exp['materials'] = {} if s is None else {s['mat']: [X.sci_float((False, *s['young']), 8),
-                                                          X.sci_float((False, *s['poisson']), 8)]}
+    exp['materials'] = {} if s is None else {s['mat']: [mat_float(s['young']), mat_float(s['poisson'])]}
     return exp, ref
 
 
@@ -437,15 +533,42 @@ def oracle_roundtrip(case, got):
         for k, prop in enumerate(('Young_modulus', 'Poisson_ratio')):
             tab = got['elemental'].get(prop, {})
             v = exp['materials'][case['sec']['mat']][k]
-            if sorted(tab) != members or not all(X.close(tab[e], v, 1e-8) for e in members):
+            if sorted(tab) != sorted(members) or not all(X.close(tab[e], v, 1e-8) for e in members):
                 bad.append(('material-assignment', f'{prop} assigned to {sorted(tab)} expected {members} value {v}'))
                 break
     if exp['temp'] is None:
         if got['temp'] is not None:
             bad.append(('temperature', 'initial temperature appeared'))
     elif got['temp'] is None or set(got['temp']) != set(got['nodes']) or not all(
-            X.close(got['temp'][i], o, 1e-12) for i, o in exp['temp'].items()):
+            i in got['temp'] and X.close(got['temp'][i], o, 1e-12) for i, o in exp['temp'].items()):
         bad.append(('temperature', f'read {got["temp"]} written {exp["temp"]}'))
+    return bad
+
+
+def other_read_paths(d, case, got):
+    """the other observation points of the property on the directory `d` the writer filled: FEMData.read_directory must
+    return what read_files returned, and read_mesh_only=True (no groups / materials, no removal of unreferenced nodes)
+    the same node and element maps  -> [(clause, detail)]"""
+    from femio import FEMData
+    bad = []
+    try:
+        gd = canon_real(X.quiet(FEMData.read_directory, 'fistr', d, read_npy=False, save=False))
+        k = same_read(got, gd, MODEL_KEYS + ['elemental'])
+        if k:
+            bad.append(('read_directory', f'read_directory returns another mesh than read_files ({k}): {str(gd.get(k))[:200]} vs {str(got.get(k))[:200]}'))
+    except Exception as e:  # noqa
+        bad.append(('read_directory-raises:' + type(e).__name__, f'read_directory of the written directory raised {e!r}'))
+    try:
+        gm = canon_real(X.quiet(FEMData.read_files, 'fistr', [str(d / 'mesh.msh')], read_mesh_only=True))
+        exp, ref = expected_of(case)
+        allpos = {i: [num_float(v) for v in p] for i, p in case['nodes']}
+        if gm['elems'] != exp['elems']:
+            bad.append(('read_mesh_only:elements', 'read_mesh_only=True returns other elements than were written'))
+        if not (ref <= set(gm['nodes']) <= set(allpos)) or not all(
+                len(r) == 3 and all(X.close(a, b, 1e-12) for a, b in zip(r, allpos[i])) for i, r in gm['nodes'].items()):
+            bad.append(('read_mesh_only:nodes', f'read_mesh_only=True returns other nodes than were written: {str(gm["nodes"])[:200]}'))
+    except Exception as e:  # noqa
+        bad.append(('read_mesh_only-raises:' + type(e).__name__, f'read_files(read_mesh_only=True) of the written .msh raised {e!r}'))
     return bad
 
 
@@ -571,6 +694,16 @@ def eval_case(ctx, case, n_variants):
     ctx.count('ids:' + str(case['id_style']))
     ctx.count('numbers:' + ('13-digit decimal' if case['decimal'] else 'arbitrary double'))
     ctx.count('branch:' + ('uniform' if len(case['blocks']) == 1 else 'mixed'))
+    if len(case['blocks']) > 1:
+        owner = [t for _, t in sorted((e, t) for t, b in case['blocks'].items() for e, _ in b)]
+        ctx.count('element ids of the types interleave:' + str(sum(a != b for a, b in zip(owner, owner[1:])) >= len(case['blocks'])).lower())
+    if any(len(b) == 1 for b in case['blocks'].values()):
+        ctx.count('single-record: a one-element block')
+    if any(len(g[1]) == 1 for g in case['groups']):
+        ctx.count('single-record: a one-member group')
+    gn = [g[0] for g in case['groups']]
+    if any(a != b and a in b for a in gn for b in gn):
+        ctx.count('group names: one contained in another')
     for t in case['blocks']:
         ctx.count('type:' + t)
     ctx.count('groups:' + case['group_style'] + ('+ALL' if case['has_all'] else ''))
@@ -598,6 +731,10 @@ def eval_case(ctx, case, n_variants):
         return
     for clause, detail in oracle_roundtrip(case, got):
         ctx.fail(signature('roundtrip', clause), 'write -> read changed the mesh: ' + detail, {'mesh': case}, detail)
+    if rnd.random() < .08:
+        for clause, detail in other_read_paths(d, case, got):
+            ctx.fail(signature('roundtrip', clause), detail, {'mesh': case, 'read_paths': True}, detail)
+        ctx.count('read also through read_directory and with read_mesh_only=True')
     for clause, detail in oracle_orientation(case, lines):
         ctx.fail(signature('orientation', clause), detail, {'mesh': case}, detail)
     if case['positive']:
@@ -676,7 +813,7 @@ def outside_streams(ctx, n):
     """inputs outside the property's quantifier: observed and counted, never reported through ctx.fail"""
     rnd = ctx.rng
     for _ in range(n):
-        case = gen_extras(rnd, gen_comb(rnd))
+        case = gen_extras(rnd, gen_comb(rnd, round3=True))
         eids = [e for b in case['blocks'].values() for e, _ in b]
         case['groups'] = [[X.rand_name(rnd), eids], [X.rand_name(rnd, ()), []]]
         case['group_style'] = 'empty-group'
@@ -689,7 +826,7 @@ def outside_streams(ctx, n):
         except Exception as e:  # noqa
             ctx.count('outside:empty-group:raises:' + type(e).__name__)
     for _ in range(n):
-        case = gen_extras(rnd, gen_comb(rnd))
+        case = gen_extras(rnd, gen_comb(rnd, round3=True))
         if len(case['nodes']) < 3:
             continue
         order = [i for i, _ in case['nodes']]
@@ -706,22 +843,57 @@ def outside_streams(ctx, n):
 
 # ------------------------------------------------------------------ stream "same object written twice"
 
+def _bits(a):
+    """values of an array by bit pattern / exact text (floats as hex, everything else through str)"""
+    return [float(x).hex() if isinstance(x, (float, np.floating)) else str(x) for x in np.ravel(np.asarray(a, dtype=object))]
+
+
+def _table(attrs, names=None):
+    return {str(k): {'ids': [str(i) for i in attrs[k].ids], 'data': _bits(attrs[k].data), 'shape': list(np.shape(attrs[k].data))}
+            for k in (attrs.keys() if names is None else names) if k in attrs}
+
+
 def canon_obj(fd):
-    """the mesh held by a live FEMData object (what the property calls "the mesh"): node ids and coordinates in storage
-    order, per-type element ids and connectivity, element groups - floats by bit pattern"""
+    """the user data held by a live FEMData object (what the property calls "the mesh"): node ids and coordinates in storage
+    order, per-type element ids and connectivity, element and node groups, sections, materials, nodal and elemental data -
+    floats by bit pattern.  (Not part of "the mesh": dict insertion orders; settings, which the writer completes:
+    solution_type, write_visual.)"""
     return {
         'node ids': [int(i) for i in fd.nodes.ids],
         'coordinates': [[float(x).hex() for x in r] for r in np.asarray(fd.nodes.data)],
         'elements': {str(t): [[int(i), [int(x) for x in r]] for i, r in zip(a.ids, a.data)] for t, a in fd.elements.items()},
         'element groups': {str(k): [int(x) for x in np.asarray(v).ravel()] for k, v in fd.element_groups.items()},
+        'node groups': {str(k): [int(x) for x in np.asarray(v).ravel()] for k, v in fd.node_groups.items()},
+        'sections': _table(fd.sections),
+        'materials': _table(fd.materials),
+        'nodal data': _table(fd.nodal_data),
+        'elemental data': _table(fd.elemental_data),
     }
 
 
-def twice_check(ctx, case, n_writes=2, same_dir=False):
-    """ONE FEMData object written n_writes times (another directory each time, or the same one with overwrite=True);
-    every written file set is read back and must be the mesh of the case (round trip + FrontISTR orientation), and the
-    object's own mesh must be what it was before the write (a writer that alters the mesh it is handed writes a
-    different mesh the next time).  -> [(clause, detail)]"""
+def obj_diff(before, after):
+    """[(part, description)] for every part of canon_obj that differs"""
+    out = []
+    for part in before:
+        if after[part] != before[part]:
+            what = ''
+            if isinstance(before[part], dict):
+                key = next(x for x in sorted(set(before[part]) | set(after[part])) if before[part].get(x) != after[part].get(x))
+                b, a = before[part].get(key), after[part].get(key)
+                row = None
+                if isinstance(b, list) and isinstance(a, list):
+                    row = next((j for j, (p, q) in enumerate(zip(b, a)) if p != q), None)
+                what = f' ({key}' + (f', row {row}: {b[row]} -> {a[row]})' if row is not None else f': {str(b)[:120]} -> {str(a)[:120]})')
+            out.append((part, f'changed the {part} of the FEMData object it was called on{what}'))
+    return out
+
+
+def twice_check(ctx, case, n_writes=2, same_dir=False, pre_existing=None, texts=None):
+    """ONE FEMData object written n_writes times (another directory each time, or the same one with overwrite=True; with
+    `pre_existing` the directory holds an earlier export of ANOTHER mesh and files of an earlier analysis before the
+    first write, which then also runs with overwrite=True); every written file set is read back and must be the mesh of
+    the case (round trip + FrontISTR orientation), and the object's user data must be what it was before the write (a
+    writer that alters the mesh it is handed writes a different mesh the next time).  -> [(clause, detail)]"""
     from femio import FEMData
     bad = []
     fd = build_fem(case)
@@ -731,30 +903,28 @@ def twice_check(ctx, case, n_writes=2, same_dir=False):
         if d.exists() and not (same_dir and k > 1):
             shutil.rmtree(d)
         d.mkdir(parents=True, exist_ok=True)
+        pre = pre_existing is not None and (k == 1 or not same_dir)
+        if pre:
+            prepopulate(d, pre_existing)
         try:
-            X.quiet(fd.write, 'fistr', d / 'mesh', overwrite=same_dir and k > 1)
+            X.quiet(fd.write, 'fistr', d / 'mesh', overwrite=pre or (same_dir and k > 1))
             lines = (d / 'mesh.msh').read_text().split('\n')[:-1]
+            if texts is not None:
+                texts.append(lines)
         except Exception as e:  # noqa
             bad.append((f'write{k}:write-raises:{type(e).__name__}', f'write number {k} of the same object raised {e!r}'))
             break
         try:
-            got = canon_real(X.quiet(FEMData.read_files, 'fistr', [str(d / 'mesh.msh'), str(d / 'mesh.cnt')]))
+            fdr = X.quiet(FEMData.read_files, 'fistr', [str(d / 'mesh.msh'), str(d / 'mesh.cnt')])
+            got = canon_real(fdr)
         except Exception as e:  # noqa
             bad.append((f'write{k}:read-raises:{type(e).__name__}', f'reading the files of write number {k} raised {e!r}'))
             break
         for clause, detail in oracle_roundtrip(case, got) + oracle_orientation(case, lines):
             bad.append((f'write{k}:{clause}', f'write number {k} of the same object -> read: ' + detail))
         after = canon_obj(fd)
-        for part in before:
-            if after[part] != before[part]:
-                what = ''
-                if isinstance(before[part], dict):
-                    key = next(x for x in sorted(set(before[part]) | set(after[part])) if before[part].get(x) != after[part].get(x))
-                    b, a = before[part].get(key), after[part].get(key)
-                    row = next((j for j, (p, q) in enumerate(zip(b or [], a or [])) if p != q), None)
-                    what = f' ({key}' + (f', row {row}: {b[row]} -> {a[row]})' if row is not None else ')')
-                bad.append((f'object-altered-by-write:{part}', f'write number {k} changed the {part} of the FEMData object '
-                                                               f'it was called on{what}'))
+        for part, what in obj_diff(before, after):
+            bad.append((f'object-altered-by-write:{part}', f'write number {k} ' + what))
         before = after      # every write is compared with the state it started from; later writes show the consequence
     return bad
 
@@ -770,17 +940,422 @@ def twice_stream(ctx, n):
             if must is None or must in case['blocks']:
                 break
         n_writes, same_dir = rnd.choice([2, 2, 3]), rnd.random() < .3
-        ctx.case(('twice', n_writes, same_dir, C.json.dumps(case, sort_keys=True)), nontrivial=True)
+        other = gen_case(rnd) if rnd.random() < .4 else None      # an earlier export of another mesh is in the way
+        ctx.case(('twice', n_writes, same_dir, C.json.dumps([case, other], sort_keys=True)), nontrivial=True)
         ctx.count('same-object-twice: cases')
-        ctx.count(f'same-object-twice: {n_writes} writes, ' + ('same directory (overwrite=True)' if same_dir else 'another directory each'))
+        ctx.count(f'same-object-twice: {n_writes} writes, ' + ('same directory (overwrite=True)' if same_dir else 'another directory each')
+                  + (', over an existing export of another mesh (overwrite=True)' if other else ''))
         ctx.count('same-object-twice: stream ' + case['kind'])
         for t in case['blocks']:
             ctx.count('same-object-twice: type ' + t)
-        for clause, detail in twice_check(ctx, case, n_writes, same_dir):
-            ctx.fail(signature('same-object', clause), detail, {'mesh': case, 'twice': {'n_writes': n_writes, 'same_dir': same_dir}}, detail)
+        texts = []
+        inp = {'mesh': case, 'twice': {'n_writes': n_writes, 'same_dir': same_dir, 'pre_existing': other}}
+        for clause, detail in twice_check(ctx, case, n_writes, same_dir, other, texts):
+            ctx.fail(signature('same-object', clause), detail, inp, detail)
+        if any(t != texts[0] for t in texts[1:]):
+            j = next(j for j, t in enumerate(texts) if t != texts[0])
+            ctx.disagree(f'same-object: write number {j + 1} of the unmodified object writes another text than write 1', inp,
+                         first_diff(texts[0], texts[j]), None)
+
+
+# ------------------------------------------------------------------ stream "history": the object was modified through public
+# means between its construction and the write (LESSONS class A / C / D; DESIGN section 8, round 3)
+
+def num_of_float(v):
+    """['s', neg, mant, exp] when v is the double nearest to a decimal with at most 13 significant digits (the model's
+    input alphabet), else ['h', hex]"""
+    v = float(v)
+    if v != v or v in (float('inf'), float('-inf')):
+        return ['h', v.hex()]
+    if v == 0:
+        return ['s', str(v).startswith('-'), 0, 0]
+    sign, digits, exp = decimal.Decimal(repr(abs(v))).as_tuple()
+    digits = list(digits)
+    while len(digits) > 1 and digits[-1] == 0:
+        digits.pop()
+        exp += 1
+    if len(digits) <= 13:
+        cand = ['s', v < 0, int(''.join(map(str, digits))) * 10 ** (13 - len(digits)), exp + len(digits) - 1]
+        if num_float(cand) == v:
+            return cand
+    return ['h', v.hex()]
+
+
+def mat_of_float(v):
+    n = num_of_float(v)
+    if n[0] == 's' and not n[1] and n[2] % 10 ** 4 == 0 and n[2] != 0:
+        cand = [n[2] // 10 ** 4, n[3]]
+        if mat_float(cand) == float(v):
+            return cand
+    return ['h', float(v).hex()]
+
+
+def snapshot_case(fd, base):
+    """the mesh a live FEMData object holds NOW, read through its public attributes (ids / data of nodes, of every element
+    block in items() order, element_groups, sections, materials, nodal_data) in the vocabulary of the generator, so that
+    everything that can be done with a generated case (oracle, model ties, an independently built fresh object) can be
+    done with the current state of an object that has a history"""
+    nodes = [[int(i), [num_of_float(x) for x in r]] for i, r in zip(fd.nodes.ids, np.asarray(fd.nodes.data, dtype=float))]
+    blocks = {str(t): [[int(e), [int(x) for x in r]] for e, r in zip(a.ids, np.asarray(a.data))] for t, a in fd.elements.items()}
+    groups = [[str(k), [int(x) for x in np.asarray(v).ravel()]] for k, v in fd.element_groups.items() if k != 'ALL']
+    sec = None
+    if 'TYPE' in fd.sections and len(fd.sections['TYPE'].ids) == 1:
+        ty, eg = fd.sections['TYPE'], fd.sections['EGRP']
+        mat = str(ty.ids[0])
+        sec = {'shell': str(np.ravel(ty.data)[0]) == 'SHELL', 'egrp': str(np.ravel(eg.data)[0]), 'mat': mat,
+               'young': mat_of_float(np.ravel(fd.materials['Young_modulus'].data)[0]),
+               'poisson': mat_of_float(np.ravel(fd.materials['Poisson_ratio'].data)[0]),
+               'mat_ids': sorted({str(x) for p in ('Young_modulus', 'Poisson_ratio') for x in fd.materials[p].ids})}
+    temp = None
+    if 'INITIAL_TEMPERATURE' in fd.nodal_data:
+        a = fd.nodal_data['INITIAL_TEMPERATURE']
+        temp = [[int(i), num_of_float(v)] for i, v in zip(a.ids, np.ravel(np.asarray(a.data, dtype=float)))]
+    dec = all(v[0] == 's' for _, p in nodes for v in p) and all(v[0] == 's' for _, v in temp or []) \
+        and (sec is None or (sec['young'][0] != 'h' and sec['poisson'][0] != 'h'))
+    base_pos = {i: p for i, p in base['nodes']}
+    base_el = {e: c for b in base['blocks'].values() for e, c in b}
+    now_pos = {i: p for i, p in nodes}
+    positive = [e for b in blocks.values() for e, c in b if e in set(base['positive']) and base_el.get(e) == c
+                and all(n in now_pos and num_float(now_pos[n][k]) == num_float(base_pos[n][k]) for n in c for k in range(3))]
+    return {'kind': base['kind'], 'order': 'after-history', 'id_style': base['id_style'], 'decimal': dec, 'nodes': nodes,
+            'blocks': blocks, 'positive': positive, 'group_style': 'after-history', 'groups': groups,
+            'has_all': 'ALL' in fd.element_groups, 'sec': sec, 'temp': temp}
+
+
+def in_quantifier(snap):
+    """why the state reached by a history is outside the property's quantifier / the stated ASSUMPTIONS (None = inside)"""
+    nid = [i for i, _ in snap['nodes']]
+    eid = [e for b in snap['blocks'].values() for e, _ in b]
+    if len(set(nid)) != len(nid) or len(set(eid)) != len(eid) or min(nid + eid) < 1:
+        return 'ids not distinct positive'
+    if not all(len(c) == ARITY[t] and set(c) <= set(nid) for t, b in snap['blocks'].items() for _, c in b):
+        return 'connectivity'
+    if not all(num_float(v) == num_float(v) and abs(num_float(v)) != float('inf') for _, p in snap['nodes'] for v in p):
+        return 'non-finite coordinate'
+    if snap['temp'] is not None and [i for i, _ in snap['temp']] != nid:
+        return 'temperature not a full field in node order'
+    if any(len(g) == 0 or not set(g) <= set(eid) for _, g in snap['groups']):
+        return 'empty group / unknown member'
+    s = snap['sec']
+    if s is not None and (s['egrp'] != 'ALL' and s['egrp'] not in [g for g, _ in snap['groups']] or s['mat_ids'] != [s['mat']]):
+        return 'section'
+    return None
+
+
+def gen_op(rnd, cur):
+    """one public modification of a live object whose current state is `cur` -> JSON-able op (row / column positions,
+    ids and values spelled out, so that a replay re-executes exactly the same statements)"""
+    dec = rnd.random() < .8
+    nid = [i for i, _ in cur['nodes']]
+    n = len(nid)
+    types = list(cur['blocks'])
+    gnames = [g for g, _ in cur['groups']]
+    eid = [e for b in cur['blocks'].values() for e, _ in b]
+    # first the part of the mesh (equal weights), then the way it is modified (in place through .data twice as likely)
+    aspects = {'nodes': ['nodes.data[r,c]=', 'nodes.data[r,c]=', 'nodes.data[r]+=', 'nodes.data=', 'nodes.update_data',
+                         'nodes.loc[i].data=', 'nodes.iloc[k].data='],
+               'elements': ['elem.data[r,c]=', 'elem.data[r,c]=', 'elem.data=', 'elem.loc[e].data='],
+               'groups': ['group=', 'group.add'] + (['group[j]=', 'group[j]=', 'group.del'] if gnames else []),
+               'temperature': ['temp.add']}
+    aligned = nid == sorted(nid)        # update() sorts by id: the temperature must stay a field in node order (ASSUMPTIONS)
+    if cur['temp'] is None or aligned:
+        aspects['nodes'].append('nodes.update')
+    if cur['temp'] is not None:
+        aspects['temperature'] = ['temp.data[r]=', 'temp.data[r]=', 'temp.overwrite', 'temp.loc[i].data='] + (['temp.update_data'] if aligned else [])
+    if cur['sec'] is not None:
+        aspects['material / section'] = ['mat.data=', 'mat.data=', 'mat.overwrite', 'mat.update_data', 'sec.egrp=']
+    if len(types) == 1:
+        aspects['elements'] += ['elements.data=', 'elements.update']
+    k = rnd.choice(aspects[rnd.choice(sorted(aspects))])
+
+    def row():
+        return [rand_num(rnd, dec) for _ in range(3)]
+
+    def conn(t):
+        return rnd.sample(nid, ARITY[t])
+    if k == 'nodes.data[r,c]=':
+        return [k, rnd.randrange(n), rnd.randrange(3), rand_num(rnd, dec)]
+    if k == 'nodes.data[r]+=':
+        return [k, rnd.randrange(n), [['s'] + list(X.rand_sci(rnd, 12, rnd.choice(['unit', 'int', 'short']))) for _ in range(3)]]
+    if k in ('nodes.data=', 'nodes.update_data'):
+        return [k, [[r, row()] for r in sorted(rnd.sample(range(n), rnd.randint(1, min(3, n))))]]
+    if k == 'nodes.loc[i].data=':
+        return [k, rnd.choice(nid), row()]
+    if k == 'nodes.iloc[k].data=':
+        return [k, rnd.randrange(n), row()]
+    if k == 'nodes.update':
+        sel = rnd.sample(nid, rnd.randint(1, min(3, n)))
+        return [k, sel, [row() for _ in sel]]
+    if k in ('elem.data[r,c]=', 'elem.data=', 'elem.loc[e].data=', 'elements.data=', 'elements.update'):
+        t = rnd.choice(types)
+        b = cur['blocks'][t]
+        r = rnd.randrange(len(b))
+        if k == 'elem.data[r,c]=':
+            c = rnd.randrange(ARITY[t])
+            free = [i for i in nid if i not in b[r][1]] or [b[r][1][c]]
+            return [k, t, r, c, rnd.choice(free)]
+        if k in ('elem.data=', 'elements.data='):
+            return [k, t, [[r2, conn(t)] for r2 in sorted(rnd.sample(range(len(b)), rnd.randint(1, min(2, len(b)))))]]
+        if k == 'elem.loc[e].data=':
+            return [k, t, b[r][0], conn(t)]
+        sel = rnd.sample([e for e, _ in b], rnd.randint(1, min(2, len(b))))
+        return [k, t, sel, [conn(t) for _ in sel]]
+    if k == 'group[j]=':
+        g, members = rnd.choice(cur['groups'])
+        free = [e for e in eid if e not in members]
+        j = rnd.randrange(len(members))
+        return [k, g, j, rnd.choice(free) if free else members[j]]
+    if k in ('group=', 'group.add'):
+        if k == 'group=' and gnames:
+            g = rnd.choice(gnames)
+        else:
+            inside = [x for x in (gn[:-1] for gn in gnames) if x and x.upper() != 'ALL' and x not in gnames]
+            more = [gn + t for gn in gnames for t in ('0', '1', '_') if gn + t not in gnames]
+            g = rnd.choice(inside + more) if (inside + more) and rnd.random() < .6 else X.rand_name(rnd, gnames)
+        return ['group=', g, rnd.sample(eid, rnd.randint(1, len(eid)))]
+    if k == 'group.del':
+        free = [g for g in gnames if cur['sec'] is None or g != cur['sec']['egrp']]
+        return [k, rnd.choice(free)] if free else ['group=', gnames[0], rnd.sample(eid, rnd.randint(1, len(eid)))]
+    if k == 'temp.add':
+        return [k, [rand_num(rnd, dec) for _ in nid]]
+    if k == 'temp.data[r]=':
+        return [k, rnd.randrange(n), rand_num(rnd, dec)]
+    if k == 'temp.overwrite':
+        return [k, [[r, rand_num(rnd, dec)] for r in sorted(rnd.sample(range(n), rnd.randint(1, min(3, n))))]]
+    if k == 'temp.loc[i].data=':
+        return [k, rnd.choice(nid), rand_num(rnd, dec)]
+    if k == 'temp.update_data':
+        sel = rnd.sample(nid, rnd.randint(1, min(3, n)))
+        return [k, sel, [rand_num(rnd, dec) for _ in sel]]
+    if k in ('mat.data=', 'mat.overwrite', 'mat.update_data'):
+        return [k, rnd.choice(['Young_modulus', 'Poisson_ratio']), list(X.rand_sci(rnd, 8, 'unit', allow_zero=False)[1:])]
+    if k == 'sec.egrp=':
+        return [k, rnd.choice(gnames + ['ALL'])]
+    raise AssertionError(k)
+
+
+def apply_op(fd, op):
+    """execute one recorded modification through femio's public interface"""
+    from femio import FEMAttribute
+    k = op[0]
+
+    def replaced(cur, rows, conv):
+        a = np.array(cur)
+        for r, v in rows:
+            a[r] = conv(v)
+        return a
+
+    def coords(p):
+        return [num_float(v) for v in p]
+    if k == 'nodes.data[r,c]=':
+        fd.nodes.data[op[1], op[2]] = num_float(op[3])
+    elif k == 'nodes.data[r]+=':
+        fd.nodes.data[op[1]] += np.array(coords(op[2]))
+    elif k == 'nodes.data=':
+        fd.nodes.data = replaced(fd.nodes.data, op[1], coords)
+    elif k == 'nodes.update_data':
+        fd.nodes.update_data(replaced(fd.nodes.data, op[1], coords))
+    elif k == 'nodes.loc[i].data=':
+        fd.nodes.loc[[op[1]]].data = np.array([coords(op[2])])
+    elif k == 'nodes.iloc[k].data=':
+        fd.nodes.iloc[[op[1]]].data = np.array([coords(op[2])])
+    elif k == 'nodes.update':
+        fd.nodes.update(np.array(op[1], dtype=np.int64), np.array([coords(p) for p in op[2]]), allow_overwrite=True)
+    elif k == 'elem.data[r,c]=':
+        fd.elements[op[1]].data[op[2], op[3]] = op[4]
+    elif k == 'elem.data=':
+        fd.elements[op[1]].data = replaced(fd.elements[op[1]].data, op[2], list)
+    elif k == 'elements.data=':
+        fd.elements.data = replaced(fd.elements[op[1]].data, op[2], list)
+    elif k == 'elem.loc[e].data=':
+        fd.elements[op[1]].loc[[op[2]]].data = np.array([op[3]], dtype=np.int64)
+    elif k == 'elements.update':
+        fd.elements.update(np.array(op[2], dtype=np.int64), np.array(op[3], dtype=np.int64), allow_overwrite=True)
+    elif k == 'group[j]=':
+        fd.element_groups[op[1]][op[2]] = op[3]
+    elif k == 'group=':
+        fd.element_groups[op[1]] = np.array(op[2], dtype=np.int64)
+    elif k == 'group.del':
+        del fd.element_groups[op[1]]
+    elif k == 'temp.add':
+        fd.nodal_data.update_data(np.array(fd.nodes.ids), {'INITIAL_TEMPERATURE': np.array([[num_float(v)] for v in op[1]])})
+    elif k == 'temp.data[r]=':
+        fd.nodal_data['INITIAL_TEMPERATURE'].data[op[1], 0] = num_float(op[2])
+    elif k == 'temp.overwrite':
+        fd.nodal_data.overwrite('INITIAL_TEMPERATURE', replaced(fd.nodal_data['INITIAL_TEMPERATURE'].data, op[1], lambda v: [num_float(v)]))
+    elif k == 'temp.loc[i].data=':
+        fd.nodal_data['INITIAL_TEMPERATURE'].loc[[op[1]]].data = np.array([[num_float(op[2])]])
+    elif k == 'temp.update_data':
+        fd.nodal_data.update_data(np.array(op[1], dtype=np.int64), {'INITIAL_TEMPERATURE': np.array([[num_float(v)] for v in op[2]])},
+                                  allow_overwrite=True)
+    elif k == 'mat.data=':
+        fd.materials[op[1]].data[0, 0] = mat_float(op[2])
+    elif k == 'mat.overwrite':
+        fd.materials.overwrite(op[1], np.array([[mat_float(op[2])]]))
+    elif k == 'mat.update_data':
+        fd.materials.update_data([str(fd.materials[op[1]].ids[0])], {op[1]: np.array([[mat_float(op[2])]])}, allow_overwrite=True)
+    elif k == 'sec.egrp=':
+        a = fd.sections['EGRP']
+        a.data = np.reshape(np.array([op[1]], dtype=object), np.shape(a.data))
+    else:
+        raise AssertionError(k)
+
+
+STRAY = {'mesh.log': 'FrontISTR run log of an earlier analysis\n', 'notes.txt': '!NODE\n1,0,0,0\n!END\n',
+         'mesh.msh.bak': '!HEADER\nold\n!NODE\n1,0.0,0.0,0.0\n!END\n', 'other.msh': '!HEADER\n!NODE\n7,1.0,1.0,1.0\n!END\n'}
+
+
+def fresh_dir(ctx, tag):
+    d = ctx.tmp / tag
+    if d.exists():
+        shutil.rmtree(d)
+    d.mkdir(parents=True)
+    return d
+
+
+def prepopulate(d, other):
+    """an earlier export of ANOTHER mesh under the same name (as a re-run of a user's script leaves it), plus files an
+    analysis directory typically holds"""
+    X.quiet(build_fem(other).write, 'fistr', d / 'mesh')
+    for name, text in STRAY.items():
+        (d / name).write_text(text)
+
+
+def history_check(ctx, case0, hist, rnd=None, n_ops=0):
+    """[history of public modifications on ONE live object] -> write -> read.  Expectation: the object's state as its public
+    attributes show it JUST BEFORE the write (snapshot_case), cross-checked against an independently built fresh object
+    with that content and against the model.  When hist['ops'] is None, n_ops operations are drawn with rnd against the
+    live object and recorded in hist.  -> [('fail' | 'disagree' | 'note', clause, detail)]"""
+    from femio import FEMData
+    out = []
+    d0 = fresh_dir(ctx, 'h0')
+    origin = hist['origin']
+    draw = hist.get('ops') is None
+    if draw:
+        hist['ops'] = []
+    try:
+        if origin == 'read':        # read -> modify -> write -> read
+            X.quiet(build_fem(case0).write, 'fistr', d0 / 'mesh')
+            fd = X.quiet(FEMData.read_files, 'fistr', [str(d0 / 'mesh.msh'), str(d0 / 'mesh.cnt')])
+        else:
+            fd = build_fem(case0)
+            if origin == 'written-once':    # write -> modify -> write
+                X.quiet(fd.write, 'fistr', d0 / 'mesh')
+    except Exception as e:  # noqa  (the main stream reports it)
+        return [('note', 'setup-raises', repr(e))]
+    for j in range(n_ops if draw else len(hist['ops'])):
+        if draw:
+            op = gen_op(rnd, snapshot_case(fd, case0))
+            hist['ops'].append(op)
+        else:
+            op = hist['ops'][j]
+        try:
+            X.quiet(apply_op, fd, op)
+        except Exception as e:  # noqa  a modifier that raises is not this property's matter; the state reached is what counts
+            out.append(('note', 'modifier-raises:' + op[0], repr(e)))
+    snap = snapshot_case(fd, case0)
+    why = in_quantifier(snap)
+    if why:
+        return out + [('note', 'outside:' + why, '')]
+    hist['state_before_write'] = snap
+    if hist['target'] == 'same-dir' and origin != 'constructed':
+        d1, overwrite = d0, True       # e.g. read -> modify -> write back over the files it came from
+    elif hist['target'] == 'other-mesh':
+        d1, overwrite = fresh_dir(ctx, 'h1'), True
+        prepopulate(d1, hist['other'])
+    else:
+        d1, overwrite = fresh_dir(ctx, 'h1'), False
+    before = canon_obj(fd)
+    if overwrite:
+        # tie of the guard in Hist.written: without overwrite=True the writer refuses the existing file and leaves it alone
+        # (the statement itself is property C07; here it is only what the history model assumes)
+        held = (d1 / 'mesh.msh').read_bytes()
+        try:
+            X.quiet(fd.write, 'fistr', d1 / 'mesh')
+            out.append(('disagree', 'write without overwrite=True onto an existing .msh does not raise (Hist.written)', None))
+        except Exception:  # noqa
+            if (d1 / 'mesh.msh').read_bytes() != held:
+                out.append(('disagree', 'refused write without overwrite=True changed the existing .msh (Hist.written)', None))
+    try:
+        X.quiet(fd.write, 'fistr', d1 / 'mesh', overwrite=overwrite)
+        lines = (d1 / 'mesh.msh').read_text().split('\n')[:-1]
+    except Exception as e:  # noqa
+        return out + [('fail', 'write-raises:' + type(e).__name__, f'write("fistr") of the modified object raised {e!r}')]
+    out += [('fail', 'object-altered-by-write:' + part, what) for part, what in obj_diff(before, canon_obj(fd))]
+    try:
+        got = canon_real(X.quiet(FEMData.read_files, 'fistr', [str(d1 / 'mesh.msh'), str(d1 / 'mesh.cnt')]))
+    except Exception as e:  # noqa
+        return out + [('fail', 'read-raises:' + type(e).__name__, f'reading the files written from the modified object raised {e!r}')]
+    for clause, detail in oracle_roundtrip(snap, got) + oracle_orientation(snap, lines):
+        out.append(('fail', clause, 'write of an object modified through its public attributes -> read: ' + detail))
+    # the written text is a function of the object's current public state: (a) a second write of the unmodified object,
+    # (b) an independently constructed fresh object with the same content, (c) the model
+    try:
+        if len(lines) % 3 == 0:         # (a) in a third of the cases: the stream same-object-twice does this on every case
+            d2 = fresh_dir(ctx, 'h2')
+            X.quiet(fd.write, 'fistr', d2 / 'mesh')
+            if (d2 / 'mesh.msh').read_text().split('\n')[:-1] != lines:
+                out.append(('disagree', 'second write of the unmodified object writes another text', first_diff(lines, (d2 / 'mesh.msh').read_text().split('\n')[:-1])))
+        _, flines = real_write(ctx, snap, tag='hf')
+        if flines != lines:
+            out.append(('disagree', 'a fresh object with the same public content writes another text', first_diff(lines, flines)))
+    except Exception as e:  # noqa
+        out.append(('disagree', 'second / fresh write raises', repr(e)))
+    if ctx.driver is not None and snap['decimal']:
+        mlines = model_write(ctx, snap)
+        if mlines != lines:
+            out.append(('disagree', 'msh text (model on the state before the write)', first_diff(lines, mlines or [])))
+        wf, canon = model_canon(ctx, snap)
+        k = 'WF' if not wf else same_read(got, canon)
+        if k:
+            out.append(('disagree', 'msh canon (right-hand side of C01_roundtrip on the state before the write): ' + k,
+                        str(got.get(k))[:200] + ' vs ' + str(canon.get(k))[:200]))
+    return out
+
+
+def first_diff(a, b):
+    k = next((k for k, (x, y) in enumerate(zip(a, b)) if x != y), min(len(a), len(b)))
+    return {'line': k, 'real': a[k] if k < len(a) else None, 'other': b[k] if k < len(b) else None}
+
+
+def history_stream(ctx, n):
+    rnd = ctx.rng
+    for k in range(n):
+        must = 'prism' if k % 4 == 0 else None
+        for _ in range(60):
+            case = gen_case(rnd)
+            if must is None or must in case['blocks']:
+                break
+        origin = rnd.choice(['constructed', 'constructed', 'written-once', 'read'])
+        target = rnd.choice(['fresh', 'same-dir', 'other-mesh'])
+        if origin == 'constructed' and target == 'same-dir':
+            target = 'other-mesh'
+        hist = {'origin': origin, 'target': target, 'ops': None, 'other': gen_case(rnd) if target == 'other-mesh' else None}
+        res = history_check(ctx, case, hist, rnd, rnd.choice([1, 1, 2, 3, 4]))
+        inp = {'mesh': case, 'history': hist}
+        ctx.case(('history', C.json.dumps(inp, sort_keys=True, default=str)), nontrivial=True)
+        ctx.count('history: cases')
+        ctx.count(f'history: object {origin}, written to ' + {'fresh': 'a fresh directory', 'same-dir': 'the directory it was written to / read from (overwrite=True)',
+                                                               'other-mesh': 'a directory holding another mesh (overwrite=True)'}[target])
+        for op in hist['ops']:
+            ctx.count('history: op ' + op[0])
+        for kind, clause, detail in res:
+            if kind == 'fail':
+                ctx.fail(signature('history', clause), detail, inp, detail)
+            elif kind == 'disagree':
+                ctx.disagree('history: ' + clause, inp, detail, None)
+            else:
+                ctx.count('history: ' + clause)
 
 
 def run(ctx):
+    import time
+    t0 = time.time()
+
+    def lap(label):
+        nonlocal t0
+        ctx.extra.setdefault('stream_seconds', {})[label] = round(time.time() - t0, 1)
+        t0 = time.time()
     n = ctx.n(300, 3000)
     if ctx.driver is None:
         n *= 2
@@ -791,6 +1366,7 @@ def run(ctx):
             ctx.fail(obj.get('signature', 'corpus:' + name), 'corpus case fails: ' + name, obj.get('input'), r)
     for _ in range(n):
         eval_case(ctx, gen_case(ctx.rng), 2 if ctx.quick else 4)
+    lap('main')
     # G5 / G6: comment lines starting with `!!`, an !EGROUP block split in two
     m = ctx.n(25, 200)
     done = {'G5': 0, 'G6': 0}
@@ -811,9 +1387,16 @@ def run(ctx):
         ctx.case(('fmt', kind, C.json.dumps(case, sort_keys=True)), nontrivial=True)
         run_variant(ctx, case, d, lines, got, kind, finding=FINDING_STREAMS[kind])
         done[kind] += 1
+    lap('G5/G6')
     outside_streams(ctx, ctx.n(6, 40))
+    lap('outside')
     # the same FEMData object written two or three times (half of the cases with prisms)
     twice_stream(ctx, ctx.n(50, 400))
+    lap('same-object-twice')
+    # one live object modified through its public attributes (in place through .data, setters, loc / iloc write-through,
+    # update / overwrite), possibly read from files or written before, then written and read back
+    history_stream(ctx, ctx.n(70, 800))
+    lap('history')
     # which ReadCfg does the working tree implement?  (upstream: bang=0, merge=0; both repairs: 1, 1)
     if ctx.driver is not None:
         det = {}
@@ -830,14 +1413,21 @@ def replay(ctx, obj):
     case = inp['mesh']
     res = {'case': {k: case[k] for k in ('kind', 'order', 'id_style')}}
     if 'twice' in inp:      # stream "same object written twice"
-        bad = twice_check(ctx, case, inp['twice']['n_writes'], inp['twice']['same_dir'])
+        bad = twice_check(ctx, case, inp['twice']['n_writes'], inp['twice']['same_dir'], inp['twice'].get('pre_existing'))
         return {**res, 'same_object_written_repeatedly': [list(b) for b in bad], 'fails': bool(bad)}
+    if 'history' in inp:    # stream "object modified through public means before the write"
+        hist = {k: v for k, v in inp['history'].items() if k != 'state_before_write'}
+        out = history_check(ctx, case, hist)
+        return {**res, 'history': {'origin': hist['origin'], 'ops': hist['ops'], 'target': hist['target']},
+                'observed': [list(o) for o in out if o[0] != 'note'][:10], 'fails': any(o[0] == 'fail' for o in out)}
     try:
         d, lines = real_write(ctx, case)
         got = real_read(ctx, lines, cnt_from=d)
     except Exception as e:  # noqa
         return {**res, 'fails': True, 'raised': repr(e)}
     bad = oracle_roundtrip(case, got) + oracle_orientation(case, lines)
+    if inp.get('read_paths'):
+        bad += other_read_paths(d, case, got)
     res['roundtrip'] = bad
     fails = bool(bad)
     if 'variant_text' in inp:
